@@ -11,7 +11,9 @@
 (*          harness's own form check of the question (nothing but 4-digit  *)
 (*          hex labels + the configured suffix, name not found anywhere in *)
 (*          the message); f = the mock service was failing during the call *)
-(*          (seeded schedule), e = the call returned an error;             *)
+(*          (seeded schedule), x = it answered with an error reply (rcode  *)
+(*          SERVFAIL / REFUSED / NOTIMP, no records), e = the call         *)
+(*          returned an error;                                             *)
 (*   tick   d units of virtual time pass;                                  *)
 (*   db     the service adds / deletes hashes.                             *)
 (* Used for both directions: A (walks planned from HashPrefix.tla's graph, *)
@@ -35,42 +37,61 @@ INSTANCE HashPrefixCore
 \* first asked (a trace of real names touches thousands of prefixes)
 EmptyCache == [p \in {} |-> [ttl |-> 0, hs |-> {}]]
 
-VARIABLES l, db, cache, life, skip, bad, nskip
+\* taint (diagnostics only, never used to accept or reject): prefix -> ticks
+\* for which an implementation that wrongly remembered an error reply as "no
+\* hashes" would go on using that; set when an error reply answers a question
+\* with a verdict, cleared when the prefix is asked again with success.
+VARIABLES l, db, cache, life, skip, bad, nskip, taint
 
-\* f = the mock service was set to fail during this call (the environment's
-\* move, known to the harness); e = the call returned an error.
+\* f = the mock service was set to fail during this call, x = it was set to
+\* answer with an error reply (the environment's moves, known to the harness);
+\* e = the call returned an error.
+Rules(e) == IF e.f \/ e.x THEN QuietOutcomes(e.n, cache, db) ELSE Outcomes(e.n, cache, db)
 Accepts(e) ==
     /\ e.ok
     /\ ~e.e
-    /\ \E o \in (IF e.f THEN QuietOutcomes(e.n, cache, db) ELSE Outcomes(e.n, cache, db)) :
-            o.q = Set(e.q) /\ o.v = e.v
+    /\ \E o \in Rules(e) : o.q = Set(e.q) /\ o.v = e.v
+\* the error reply was received: an error, or a verdict without the asked prefixes
+AcceptsErrReply(e) ==
+    /\ e.ok /\ e.x /\ Set(e.q) \in FailQuestions(e.n)
+    /\ e.e \/ e.v \in ErrReplyVerdicts(e.n, cache, Set(e.q))
 \* the failure showed: error to the caller, only candidate prefixes asked
 AcceptsFailed(e) ==
     e.ok /\ e.f /\ e.e /\ Set(e.q) \in FailQuestions(e.n)
 
 Init == l = 1 /\ db = {} /\ cache = EmptyCache /\ life = 1 /\ skip = FALSE /\ bad = {} /\ nskip = 0
+        /\ taint = [p \in {} |-> 0]
 
 Step(e) ==
     IF e.a = "reset"
     THEN /\ db' = Set(e.db) /\ cache' = EmptyCache /\ life' = e.t /\ skip' = FALSE
+         /\ taint' = [p \in {} |-> 0]
          /\ UNCHANGED <<bad, nskip>>
     ELSE IF skip
-    THEN /\ nskip' = nskip + 1 /\ UNCHANGED <<db, cache, life, skip, bad>>
+    THEN /\ nskip' = nskip + 1 /\ UNCHANGED <<db, cache, life, skip, bad, taint>>
     ELSE IF e.a = "tick"
     THEN /\ cache' = Age(cache, e.d) /\ UNCHANGED <<db, life, skip, bad, nskip>>
+         /\ taint' = [p \in DOMAIN taint |-> IF taint[p] > e.d THEN taint[p] - e.d ELSE 0]
     ELSE IF e.a = "db"
-    THEN /\ db' = (db \ Set(e.del)) \cup Set(e.add) /\ UNCHANGED <<cache, life, skip, bad, nskip>>
+    THEN /\ db' = (db \ Set(e.del)) \cup Set(e.add) /\ UNCHANGED <<cache, life, skip, bad, nskip, taint>>
     ELSE IF AcceptsFailed(e)
-    THEN UNCHANGED <<db, cache, life, skip, bad, nskip>>      \* a failed lookup leaves the cache as it was
+    THEN UNCHANGED <<db, cache, life, skip, bad, nskip, taint>>   \* a failed lookup leaves the cache as it was
+    ELSE IF AcceptsErrReply(e)
+    THEN /\ UNCHANGED <<db, cache, life, skip, bad, nskip>>      \* and so does an error reply
+         /\ taint' = [p \in DOMAIN taint \cup Set(e.q) |->
+                        IF p \in Set(e.q) /\ ~e.e THEN life
+                        ELSE IF p \in DOMAIN taint THEN taint[p] ELSE 0]
     ELSE IF Accepts(e)
     THEN /\ cache' = Store(cache, Set(e.q), Received(db, Set(e.q)), life)
+         /\ taint' = [p \in DOMAIN taint |-> IF p \in Set(e.q) THEN 0 ELSE taint[p]]
          /\ UNCHANGED <<db, life, skip, bad, nskip>>
-    ELSE /\ bad' = bad \cup {l} /\ skip' = TRUE /\ UNCHANGED <<db, cache, life, nskip>>
+    ELSE /\ bad' = bad \cup {l} /\ skip' = TRUE /\ UNCHANGED <<db, cache, life, nskip, taint>>
          \* diagnostics for the replay record: what the rules admit here
          /\ PrintT(<<"@@V", ToJson([line |-> l,
                                     admissible |-> {[q |-> o.q, v |-> o.v] :
-                                        o \in (IF e.f THEN QuietOutcomes(e.n, cache, db) ELSE Outcomes(e.n, cache, db))},
-                                    failing |-> e.f,
+                                        o \in Rules(e)},
+                                    failing |-> e.f, errreply |-> e.x,
+                                    tainted |-> {p \in DOMAIN taint : taint[p] > 0},
                                     valid |-> {p \in PrefsOf(e.n, Core(e.n) \cup Opt(e.n)) : Valid(cache, p)}])>>)
 
 Next == /\ l <= Len(Trace)
@@ -78,5 +99,5 @@ Next == /\ l <= Len(Trace)
         /\ l' = l + 1
         /\ (l' = Len(Trace) + 1 =>
               PrintT(<<"@@V", ToJson([n |-> Len(Trace), bad |-> bad', skipped |-> nskip'])>>))
-Spec == Init /\ [][Next]_<<l, db, cache, life, skip, bad, nskip>>
+Spec == Init /\ [][Next]_<<l, db, cache, life, skip, bad, nskip, taint>>
 =============================================================================
